@@ -99,3 +99,13 @@ pub fn fuzz_seeds(id: &str, n: usize, seed: u64) -> Vec<Vec<u8>> {
         _ => vec![],
     }
 }
+
+/// (identical, tried) per property: recorded random cases regenerated from their bytes
+pub fn fuzz_roundtrip_all(n: usize) -> Vec<(&'static str, usize, Option<(String, String)>)> {
+    let mut v = vec![];
+    macro_rules! go { ($id:literal, $p:expr) => {{ let (s, d) = engine::fuzz_roundtrip(&$p, n); v.push(($id, s, d)); }}; }
+    go!("C01", c01::C01); go!("C02", c02::C02); go!("C03", c03::C03); go!("C04", c04::C04); go!("C05", c05::C05); go!("C06", c06::C06);
+    go!("C07", c07::C07); go!("C08", c08::C08); go!("C09", c09::C09); go!("C10", c10::C10); go!("C11", c11::C11); go!("C12", c12::C12);
+    go!("C13", c13::C13); go!("C14", c14::C14); go!("C15", c15::C15); go!("C16", c16::C16); go!("C17", c17::C17); go!("C18", c18::C18);
+    v
+}
